@@ -62,7 +62,7 @@ std::vector<std::vector<uint8_t>> Encoder::encode(const Packet& packet, const Da
 
 void Encoder::putPacket(const Packet& packet)
 {
-    if (messageType != packet.getMessageType())
+    if (cmpFrames.empty() || messageType != packet.getMessageType())
         setMessageType(packet);
 
     size_t currentPayloadPos = 0;
